@@ -1,7 +1,7 @@
 (* C20 — unsupported requests fail loudly instead of returning numbers.
    Statements only; every proof is `exact <lemma of GuardsProofs>`.  Model: theories/Guards.v
    (`impl` = what the code does with a request, `WellFormed` = the request is supported / the model is well-formed). *)
-From Coq Require Import List String Bool Arith.
+From Coq Require Import List String Bool Arith Permutation.
 From PV Require Import Guards GuardsProofs.
 Import ListNotations.
 Open Scope string_scope.
@@ -9,7 +9,7 @@ Open Scope list_scope.
 
 (* ---- the property over everything that is probed: a request that returns quietly was well-formed ---- *)
 (* Full statement (F1-F6 repaired: D48, D49, D76, D79, D109, D113): *)
-Definition C20_full : Prop := C20_full_statement.
+Definition C20_full : Prop := C20_full_statement.   (* a Definition: the statement; the theorem is C20_full_holds below *)
 (* = forall p, WFprobe p -> impl p = Ok -> WellFormed p *)
 
 Theorem C20_partial : forall p, WFprobe p -> guard p = true -> impl p = Ok -> WellFormed p.
@@ -90,6 +90,29 @@ Theorem C20_refuted_verify_path_before_D76 : fixed_F3 = false -> ~ C20_full_stat
 Proof. exact GuardsProofs.C20_refuted_verify_path. Qed.
 Print Assumptions C20_refuted_verify_path_before_D76.
 
+(* The four statements above with a hypothesis `fixed_Fk = false` are CONDITIONAL RECORDS: all switches are true now, so
+   they hold vacuously (their proofs rewrite with the hypothesis and evaluate the witness, but the statements say nothing).
+   The same facts with the switch given explicitly — true whatever Guards.v says: *)
+Theorem C20_verify_path_before_D76 : verify_path_gen false ["label"] F3_net F3_path = Ok /\ presentb F3_net F3_path = false /\
+  verify_path_gen true ["label"] F3_net F3_path = Err EPyRates.
+Proof. exact verify_path_before_D76. Qed.
+Print Assumptions C20_verify_path_before_D76.
+Theorem C20_short_node_value_before_D79 :
+  hier_result_gen false HNodeValue 1 F4_hnet0 ["c1"; "o1"; "g"] = Ok /\
+  wellformedb (PHier HNodeValue 1 F4_hnet0 ["c1"; "o1"; "g"]) = false /\
+  hier_result_gen true HNodeValue 1 F4_hnet0 ["c1"; "o1"; "g"] = Warn.
+Proof. exact short_node_value_before_D79. Qed.
+Print Assumptions C20_short_node_value_before_D79.
+Theorem C20_backend_name_before_D109 :
+  backend_result false (Some "JAX") = Ok /\ documented_backend (Some "JAX") = None /\ backend_result true (Some "JAX") = Err EPyRates.
+Proof. exact backend_name_before_D109. Qed.
+Print Assumptions C20_backend_name_before_D109.
+Theorem C20_solver_in_get_run_func_before_D113 :
+  let c := mkc BDefault SOther true DNone false true EFunc in
+  outcome_gen false c = Ok /\ accepts_gen false c = Ok /\ supportedb c = false /\ outcome_gen true c = Err EPyRates.
+Proof. exact solver_in_get_run_func_before_D113. Qed.
+Print Assumptions C20_solver_in_get_run_func_before_D113.
+
 (* the decidable test used by the correspondence run is the specification *)
 Theorem C20_test_is_spec : forall p r, WFprobe p -> (meets_spec p r = true <-> (WellFormed p \/ loud_enough p r)).
 Proof. exact meets_spec_iff. Qed.
@@ -140,9 +163,17 @@ Print Assumptions C20_two_outputs.
 Theorem C20_reserved_declaration : forall vars n t, In (n, t) vars -> Reserved n -> scan_vars vars false = Err EPyRates.
 Proof. exact reserved_declaration_rejected. Qed.
 Print Assumptions C20_reserved_declaration.
+(* NOTE (review): the next statement is BOOLEAN REFLECTION — the model function is `if <decidable presence test> then Ok else
+   Warn/Err`, and the theorem says that the test decides the specification predicate.  The mechanism behind the test in the
+   code (get_nodes walking the template, the parser raising KeyError for an unknown symbol, NodeTemplate.apply popping
+   groups) is NOT modelled; that the code behaves like the test is tied by the correspondence run only. *)
 Theorem C20_undeclared_variable : forall d u x, In x u -> ~ In x d -> check_equation d u = Err EOther.
 Proof. exact undeclared_variable_rejected. Qed.
 Print Assumptions C20_undeclared_variable.
+(* NOTE (review): the next statement is BOOLEAN REFLECTION — the model function is `if <decidable presence test> then Ok else
+   Warn/Err`, and the theorem says that the test decides the specification predicate.  The mechanism behind the test in the
+   code (get_nodes walking the template, the parser raising KeyError for an unknown symbol, NodeTemplate.apply popping
+   groups) is NOT modelled; that the code behaves like the test is tied by the correspondence run only. *)
 Theorem C20_leftover_value : forall ns us o v, In (o, v) us -> ~ In o ns -> node_apply ns us = Err EPyRates.
 Proof. exact leftover_value_rejected. Qed.
 Print Assumptions C20_leftover_value.
@@ -168,12 +199,24 @@ Theorem C20_hierarchical : forall k depth hnet p, WFnet (subnet hnet (firstn dep
 Proof. exact hier_ok_wellformed. Qed.
 Print Assumptions C20_hierarchical.
 
+(* NOTE (review): the next statement is BOOLEAN REFLECTION — the model function is `if <decidable presence test> then Ok else
+   Warn/Err`, and the theorem says that the test decides the specification predicate.  The mechanism behind the test in the
+   code (get_nodes walking the template, the parser raising KeyError for an unknown symbol, NodeTemplate.apply popping
+   groups) is NOT modelled; that the code behaves like the test is tied by the correspondence run only. *)
 Theorem C20_edge_endpoint : forall net p, WFnet net -> (edge_endpoint net p = Ok <-> Path3 net p).
 Proof. exact edge_endpoint_ok_iff. Qed.
 Print Assumptions C20_edge_endpoint.
+(* NOTE (review): the next statement is BOOLEAN REFLECTION — the model function is `if <decidable presence test> then Ok else
+   Warn/Err`, and the theorem says that the test decides the specification predicate.  The mechanism behind the test in the
+   code (get_nodes walking the template, the parser raising KeyError for an unknown symbol, NodeTemplate.apply popping
+   groups) is NOT modelled; that the code behaves like the test is tied by the correspondence run only. *)
 Theorem C20_input_missing_warns : forall net p, WFnet net -> ~ Path3 net p -> add_input net p = Warn.
 Proof. exact add_input_missing_warns. Qed.
 Print Assumptions C20_input_missing_warns.
+(* NOTE (review): the next statement is BOOLEAN REFLECTION — the model function is `if <decidable presence test> then Ok else
+   Warn/Err`, and the theorem says that the test decides the specification predicate.  The mechanism behind the test in the
+   code (get_nodes walking the template, the parser raising KeyError for an unknown symbol, NodeTemplate.apply popping
+   groups) is NOT modelled; that the code behaves like the test is tied by the correspondence run only. *)
 Theorem C20_update_missing_warns : forall net p, WFnet net -> ~ Path3 net p -> update_var net p = Warn.
 Proof. exact update_var_missing_warns. Qed.
 Print Assumptions C20_update_missing_warns.
@@ -182,6 +225,10 @@ Proof. exact add_input_before_D13_silent. Qed.
 Print Assumptions C20_input_before_D13_silent.
 
 (* outputs (fix D48), node-level values (fix D49; `all` broadcasts included): no guard needed any more *)
+(* NOTE (review): the next statement is BOOLEAN REFLECTION — the model function is `if <decidable presence test> then Ok else
+   Warn/Err`, and the theorem says that the test decides the specification predicate.  The mechanism behind the test in the
+   code (get_nodes walking the template, the parser raising KeyError for an unknown symbol, NodeTemplate.apply popping
+   groups) is NOT modelled; that the code behaves like the test is tied by the correspondence run only. *)
 Theorem C20_outputs : forall net outs, WFnet net -> (resolve_outputs net outs = Ok <-> forall o, In o outs -> Path3 net o).
 Proof. exact resolve_outputs_ok_iff. Qed.
 Print Assumptions C20_outputs.
@@ -209,13 +256,32 @@ Theorem C20_node_value_unknown_node_warns : forall (net : network) n o v, String
 Proof. exact node_value_unknown_node_warns. Qed.
 Print Assumptions C20_node_value_unknown_node_warns.
 
-(* a model that mixes a plain-delay edge with a delay+spread edge is treated like a discrete delay, in either order *)
+(* the flag `_uses_edge_delay_buffer` over the projections in processing order: sticky (the code) = order-independent for
+   every sequence; assigned per call (the seeded changes C20-m1/m3/m5) = decided by the last projection *)
+Theorem C20_delay_flag_order_independent : forall ks ks', Permutation ks ks' -> flag_sticky ks = flag_sticky ks'.
+Proof. exact flag_sticky_order_independent. Qed.
+Print Assumptions C20_delay_flag_order_independent.
+Theorem C20_delay_flag_assigned_order_dependent :
+  flag_assigned (mixed_kinds true) = false /\ flag_assigned (mixed_kinds false) = true /\ Permutation (mixed_kinds true) (mixed_kinds false).
+Proof. exact flag_assigned_order_dependent. Qed.
+Print Assumptions C20_delay_flag_assigned_order_dependent.
+(* the model of the mixed-delay probe rows therefore does not depend on the order (the `first_plain` argument is ignored:
+   both statements are by reflexivity and record a modelling decision; that the CODE does not depend on it is what the
+   correspondence run checks by running both orders) *)
+Theorem C20_mixed_order_independent : forall b s v e, mixed_outcome b s v true e = mixed_outcome b s v false e.
+Proof. exact mixed_order_independent. Qed.
+Print Assumptions C20_mixed_order_independent.
+Theorem C20_mixed_population_order_independent : forall b s v e, pop_outcome b s v true e = pop_outcome b s v false e.
+Proof. exact pop_order_independent. Qed.
+Print Assumptions C20_mixed_population_order_independent.
+(* a model that mixes a plain-delay edge with a delay+spread edge is treated like a discrete delay (an instance of
+   C20_numbers_only_if_supported at a DDiscrete row) *)
 Theorem C20_mixed_delays : forall b s v fp e, g6 fixed_F6 (mixed_config b s v e) = true ->
   mixed_outcome b s v fp e = Ok -> Supported (mixed_config b s v e).
 Proof. exact mixed_ok_supported. Qed.
 Print Assumptions C20_mixed_delays.
 
-(* ... and so is the same mixture of matrix connections of a population (Connectivity API), in either order *)
+(* ... and so is the same mixture of matrix connections of a population (Connectivity API) *)
 Theorem C20_mixed_population_delays : forall b s v fp e, g6 fixed_F6 (pop_config b s v e) = true ->
   pop_outcome b s v fp e = Ok -> Supported (pop_config b s v e).
 Proof. exact pop_ok_supported. Qed.
